@@ -7,8 +7,8 @@ git -C /repo worktree add -q $WT HEAD || exit 2
 trap "git -C /repo worktree remove --force $WT" EXIT
 git -C $WT apply "$D/patch.diff" || { echo "patch does not apply"; exit 2; }
 echo "== tests"; (cd $WT && PYTHONPATH=$WT/src:$WT/DHLLDV_viewer /venv/bin/python -m pytest -q -p no:cacheprovider --timeout=900 --continue-on-collection-errors 2>&1 | tail -1)
-echo "== demo on changed tree (expect 1)"; /venv/bin/python "$D/demo.py" $WT > /tmp/demo-$P.out 2>&1; echo "exit=$?"; tail -2 /tmp/demo-$P.out
-echo "== demo on /repo (expect 0)"; /venv/bin/python "$D/demo.py" /repo > /dev/null 2>&1; echo "exit=$?"
+echo "== demo on changed tree (expect 1)"; PYTHONPATH=$WT/src:$WT/DHLLDV_viewer /venv/bin/python "$D/demo.py" $WT > /tmp/demo-$P.out 2>&1; echo "exit=$?"; tail -2 /tmp/demo-$P.out
+echo "== demo on /repo (expect 0)"; PYTHONPATH=/repo/src:/repo/DHLLDV_viewer /venv/bin/python "$D/demo.py" /repo > /dev/null 2>&1; echo "exit=$?"
 echo "== check"; cd /verif; cp evidence/$P.json /tmp/evidence-$P-$$.json 2>/dev/null
 VERIF_REPO=$WT ./check $P --tier ${TIER:-quick}; echo "check exit=$?"
 cp evidence/$P.json /tmp/evidence-seed-$P.json 2>/dev/null; mv /tmp/evidence-$P-$$.json evidence/$P.json 2>/dev/null
